@@ -89,9 +89,10 @@ pub fn spawn_cell(prop: &str, tier: Tier, seed: u64, index: u64, extra: &[String
         s
     });
     // a VM that never returns from run_n_steps cannot be caught by the step cap; the cell is
-    // killed after a wall-clock limit far above anything a healthy cell needs (< 1 min)
+    // killed after a wall-clock limit far above anything a healthy cell needs (seconds; the
+    // slowest cells seen on a loaded machine took about a minute)
     let limit = match tier {
-        Tier::Quick => Duration::from_secs(300),
+        Tier::Quick => Duration::from_secs(900),
         Tier::Thorough => Duration::from_secs(1800),
     };
     let mut timed_out = false;
